@@ -81,6 +81,21 @@ CLAIMED['C18'] = {
             'floating-point rounding outside the theorems; the specialised extractor in lib/props/C18.py; CPython set order modelled as an arbitrary duplicate-free list.',
 }
 
+CLAIMED['C11'] = {
+    'technique': 'Rocq proof over a hand-written executable model (tie B) + catalogue and branch table regenerated from source on every run (tie A)',
+    'text': ('Proved in Rocq for all sizes and all bases >= 2, over exact rationals, axiom-free: the doubling construction of get_halton_draws delivers the '
+             'radical inverse of i+skip+1 (skip law, support (0,1)); MLHS puts exactly one point per stratum for all random numbers in [0,1) and every shuffle; '
+             'antithetic rows are a first half followed by its mirror; symmetric = 2u-1 in [-1,1]; shape; the 21-entry catalogue extracted from native_draws.py '
+             '(ast, fail-closed) advertises in description and key exactly the base, skip, symmetric, antithetic and normal flags its helper implements '
+             '(vm_compute over the generated table); entries with different bases yield different sequences. Tied to the code by Coq-side comparison of '
+             'implementation doubles with the model on observed RNG output for all 21 types and direct generator calls. PARTIAL: the accuracy of the normal '
+             'quantile is not proved: AS241 as published is the specification, the implementation is swept against it and against Phi(z) = u; the branch '
+             'structure of the code (generated from source) is proved to differ from AS241 (T11i_wichura_branches_refuted) and to coincide exactly on '
+             '[0.075, 0.45] U (0.925, 1): reported as a KNOWN-FINDING (cannot be repaired: an existing test pins numbers computed with it).'),
+    'note': KERNEL + 'the C11 ast extractor; RNG observation by wrapping np.random.uniform / shuffle; numpy RNG an arbitrary input; libm erfc, log, sqrt; binary64 '
+            'rounding bounded by the stated per-stream tolerances.',
+}
+
 _NOT_YET = 'check not built yet in this session (framework under construction); no claim made'
 NOT_APPLICABLE = {p: _NOT_YET for p in
                   ['C01', 'C02', 'C03', 'C04', 'C05', 'C06', 'C07', 'C08', 'C09', 'C10', 'C11', 'C12', 'C13',
